@@ -152,7 +152,7 @@ void register_c18() {
     p.id = "C18"; p.level = "fault_enumeration";
     p.rule = "per seeded scenario (writer plan with adversarial byte-array contents that look like file tails) the fault space is enumerated: (1) every proper prefix length of the fault-free image (all of them for images <= 6 KiB, else the last 4 KiB, +-3 bytes around every sink write boundary, the first 16 and 300 sampled) presented by fread, mmap and buffer: open must fail with a proper error unless the peer reader strictly validates the prefix as a complete file (then content must match); (2) under each of 4 stdio buffering modes: EIO at every sink write, ENOSPC at byte budgets +-1 around every write boundary plus samples, failure of the flush-time write, fclose failure: a fired fault must surface as non-OK from some writer call, and close==OK implies the sink holds the fault-free bytes; (3) carquet_writer_abort after every prefix of the call history: no file left (path), caller's stream untouched (FILE*), ledger empty; one evaluation = one fault point; non-trivial/distinct as in C01 for the scenario";
     p.quick_runs = 400; p.thorough_runs = 40000;
-    p.run = run_c18;
+    p.run = run_c18; p.recheck = 48;
     p.assumptions = {"a prefix counts as 'itself a complete Parquet file' iff the independent peer reader accepts it under its strict structural checks",
                      "glibc treats a short count from a cookie write as an error and does not retry (probed), so there are no benign short writes at this seam"};
     register_property(p);
